@@ -26,6 +26,7 @@ type propSpec struct {
 	QuickRuns    int
 	ThoroughRuns int
 	Isolated     bool // traces execute in their own OS process
+	MinExecs     int  // minimiser execution budget (0 = 600)
 	Rule         string
 	Real         []string
 	Stubs        []string
